@@ -477,12 +477,22 @@ class Exec:
         r = self.solver.check()
         if r == z3.sat:
             self.last_model = self.solver.model()
+        # the model of the most recent satisfiable query: a harness that has just asked "can the property fail here?" takes its witness from it
+        self.check_model = self.last_model if r == z3.sat else None
         self.solver.pop()
         self.stats.solver_calls += 1
         self.stats.solver_s += time.time() - t
         if r == z3.unknown:
             raise Unsupported("solver returned unknown")
         return r == z3.sat
+
+    def witness_model(self):
+        """an input of this path; if the last query the harness made was satisfiable, the input that satisfied it"""
+        m = getattr(self, "check_model", None)
+        if m is not None:
+            return m
+        assert self.solver.check() == z3.sat
+        return self.solver.model()
 
     def decide(self, cond):
         """cond: z3 Bool. Returns the branch taken on this path (python bool)."""
